@@ -29,10 +29,24 @@ def _derived_attrs(P, cn):
                         and isinstance(x.value, ast.Name) and \
                         x.value.id == 'self':
                     out.setdefault(x.attr, m)
+                # containers filled through self: self.X[k] = v,
+                # self.X.append(v), self.X.setdefault(...), self.X.update(...)
+                if isinstance(x, ast.Subscript) and isinstance(x.ctx, ast.Store) \
+                        and isinstance(x.value, ast.Attribute) and \
+                        isinstance(x.value.value, ast.Name) and \
+                        x.value.value.id == 'self':
+                    out.setdefault(x.value.attr, m)
+                if isinstance(x, ast.Call) and isinstance(x.func, ast.Attribute) \
+                        and x.func.attr in ('append', 'setdefault', 'update',
+                                            'add', 'extend', 'insert') and \
+                        isinstance(x.func.value, ast.Attribute) and \
+                        isinstance(x.func.value.value, ast.Name) and \
+                        x.func.value.value.id == 'self':
+                    out.setdefault(x.func.value.attr, m)
     return out
 
 
-def stale_cache(ctx, rule, classes, why):
+def stale_cache(ctx, rule, classes, why, min_methods=10):
     """NO-STALE-STATE: in the stateless query helpers every read of an
     attribute that some method derives from the lens is preceded, on every
     path of the same public call, by a store of that attribute.  A memo read
@@ -123,7 +137,7 @@ def stale_cache(ctx, rule, classes, why):
             else:
                 res.ok(f'{m.qual}: no derived attribute read before it is '
                        f'recomputed')
-    res.min_instances = 10
-    if n < 10:
+    res.min_instances = min_methods
+    if n < min_methods:
         raise AnalysisError(f'{rule}: only {n} public methods analysed')
     return res
